@@ -1032,15 +1032,22 @@ async fn main(plan: Plan) -> Outcome {
                 .map_err(|e| e.to_string())?
                 .enumerate()
             {
-                let (mut it,) = row.map_err(|e| e.to_string())?;
-                let x = match it.nth(n % 6) {
-                    Some(x) => Some(x.map_err(|e| e.to_string())?),
+                // Every row is read whatever happened to the ones before it (an element
+                // that cannot be read is an error value, not the end of the exercise).
+                let Ok((mut it,)) = row else {
+                    v.push((None, usize::MAX));
+                    continue;
+                };
+                let x = match it.nth((n + 3) % 6) {
+                    Some(Ok(x)) => Some(x),
+                    Some(Err(_)) => Some(f32::NAN),
                     None => None,
                 };
                 let mut rest = 0usize;
                 for y in it.by_ref() {
-                    y.map_err(|e| e.to_string())?;
-                    rest += 1;
+                    if y.is_ok() {
+                        rest += 1;
+                    }
                     if rest > ROW_CAP {
                         break;
                     }
@@ -1053,7 +1060,14 @@ async fn main(plan: Plan) -> Outcome {
             Ok(v)
         })();
         if clean {
-            let want: Vec<(Option<f32>, usize)> = (0..4).map(|r| (Some((r * 10 + r % 6 + 1) as f32), 5 - r % 6 - 1)).collect();
+            // Row r is read with nth((r + 3) % 6): rows 0, 1 skip 3 and 4 elements, rows 2, 3
+            // ask for more than there is (None) resp. take the first.
+            let want: Vec<(Option<f32>, usize)> = (0..4usize)
+                .map(|r| {
+                    let n = (r + 3) % 6;
+                    if n < 5 { (Some((r * 10 + n + 1) as f32), 5 - n - 1) } else { (None, 0) }
+                })
+                .collect();
             match decoded {
                 Ok(v) if v == want => out.count("vector_nth_equal", 1),
                 other => out.violation("c08.roundtrip", format!("vector column through nth(): got {other:?}, expected {want:?}")),
